@@ -223,7 +223,7 @@ func c11scenario(rep *vh.Report, seed uint64, idx int) {
 				var fr frame.Frame
 				var msg message.Message = &MessageVfUid{Uid: uid, Kind: 2, Pad: [3]uint8{9, 9, 9}}
 				if v1node {
-					msg = &MessageVfLow{Uid: uid, Kind: 2} // a v1 link cannot carry id 5000
+					msg = &MessageVfLow{Uid: uid, Kind: byte(uid & 1 * 2), Ext: 5} // a v1 link cannot carry id 5000
 				}
 				if op[0] == 'F' {
 					c.Frame = true
@@ -231,7 +231,7 @@ func c11scenario(rep *vh.Report, seed uint64, idx int) {
 					v1 := gr.Chance(1, 4)
 					c.V1 = v1
 					if v1 {
-						msg = &MessageVfLow{Uid: uid, Kind: 2}
+						msg = &MessageVfLow{Uid: uid, Kind: byte(uid & 1 * 2), Ext: 5}
 					} else {
 						msg = &MessageVfUid{Uid: uid, Kind: 2, Pad: [3]uint8{9, 9, 9}}
 					}
@@ -408,6 +408,19 @@ func c11scenario(rep *vh.Report, seed uint64, idx int) {
 					map[string]interface{}{"goroutine": c.G, "channel": ti, "item": i, "after_item": prev, "op": c.Op, "wire_index": fi})
 			}
 			lastOfG[c.G] = i
+			// payload form: a frame travels in its own version (v1: exactly the base size, extensions omitted;
+			// v2: zero-truncated full payload), whatever the node's own version is
+			{
+				lay, val := uidLayout, interface{}(&MessageVfUid{Uid: uid, Kind: 2, Pad: [3]uint8{9, 9, 9}})
+				if f.MsgID == 200 {
+					lay, val = lowLayout, interface{}(&MessageVfLow{Uid: uid, Kind: byte(uid & 1 * 2), Ext: 5})
+				}
+				want := lay.Encode(reflect.ValueOf(val), f.Version == 2)
+				if string(want) != string(f.Payload) {
+					rep.Violation("what=header ep=custom", fmt.Sprintf("payload on the wire is not the encoding of the written message in the frame's own version (v%d, op %s)", f.Version, c.Op),
+						map[string]interface{}{"got": vh.Hex(f.Payload), "want": vh.Hex(want), "node_v1": v1node})
+				}
+			}
 			// headers: forwarded frames keep their own, originated messages get the link's
 			if c.Frame {
 				if f.Seq != c.Seq || f.Sys != c.Sys || f.Comp != c.Comp || (f.Version == 1) != c.V1 {
